@@ -121,6 +121,57 @@ CORPUS = [
 ]
 
 
+def valid_program(p):
+    """The API discipline the generator obeys (shrinking must not leave it): untimed join()/result()
+    only on a running pool, an untimed result() only if no stop() can have dropped the task, other
+    clients use timed waits only, and a dependent group is complete, no larger than max_threads
+    and not interrupted by join()/stop()."""
+    waits, opens = set(), set()
+    group_pos = []
+    for ci, ops in enumerate(p["clients"]):
+        running, stopped_before = False, False
+        for k, o in enumerate(ops):
+            if o[0] in ("start", "stop") and ci != 0:
+                return False
+            if o[0] == "start":
+                running = True
+            elif o[0] == "stop":
+                running, stopped_before = False, True
+            elif o[0] == "join" and not o[1] and (ci != 0 or not running):
+                return False
+            elif o[0] == "await" and not o[2] and (ci != 0 or not running or stopped_before):
+                return False
+            elif o[0] == "open":
+                opens.add(o[1])
+                group_pos.append((ci, k))
+            elif o[0] == "enq" and o[1][0] != "ret" and o[1][0] != "raise":
+                if ci != 0 or not running:
+                    return False
+                kd = o[1]
+                if kd[0] in ("wait", "waitopen"):
+                    waits.add(kd[1])
+                if kd[0] == "open":
+                    opens.add(kd[1])
+                if kd[0] == "waitopen":
+                    opens.add(kd[2])
+                group_pos.append((ci, k))
+    if waits - opens:
+        return False
+    n_group = sum(1 for ops in p["clients"] for o in ops if o[0] == "enq" and o[1][0] not in ("ret", "raise"))
+    if n_group > p["max"]:
+        return False
+    ks = [k for (ci, k) in group_pos if ci == 0]
+    if ks:
+        ops = p["clients"][0]
+        if any(o[0] == "stop" or (o[0] == "join" and not o[1]) or (o[0] == "await" and not o[2]) for o in ops[min(ks):max(ks)]):
+            return False
+        # the group must have finished (an untimed join) before any later stop()
+        for k in range(max(ks) + 1, len(ops)):
+            if ops[k][0] == "stop" and ("join", False) not in ops[max(ks) + 1:k]:
+                return False
+    return True
+
+
 def policy_for(rng, k):
     seed = rng.randrange(1 << 30)
     if k % 3 == 2:
@@ -497,15 +548,17 @@ class PoolStream(pipeline.Stream):
         # drop one client, or one operation
         for ci in range(len(p["clients"]) - 1, 0, -1):
             q = dict(p, clients=p["clients"][:ci] + p["clients"][ci + 1:])
-            yield {"program": q, "policy": case["policy"]}
+            if valid_program(q):
+                yield {"program": q, "policy": case["policy"]}
         for ci, ops in enumerate(p["clients"]):
             for k in range(len(ops) - 1, -1, -1):
                 if ops[k][0] in ("start",) and ci == 0 and k == [o[0] for o in ops].index("start"):
                     continue
-                if p.get("gates") and (ops[k][0] in ("join", "stop") or (ops[k][0] == "enq" and ops[k][1][0] not in ("ret", "raise"))):
+                if p.get("gates") and (ops[k][0] in ("join", "stop", "open") or (ops[k][0] == "enq" and ops[k][1][0] not in ("ret", "raise"))):
                     continue          # keep the dependent group and its guards intact
                 q = dict(p, clients=[o2 if c2 != ci else ops[:k] + ops[k + 1:] for c2, o2 in enumerate(p["clients"])])
-                yield {"program": q, "policy": case["policy"]}
+                if valid_program(q):
+                    yield {"program": q, "policy": case["policy"]}
 
     def widen(self, rng):
         return [{"program": gen_program(rng), "policy": policy_for(rng, k)} for k in range(1500)]
